@@ -325,6 +325,14 @@ func CheckC19(o *Outcome) *vh.Finding {
 			if input != consumed+leftover+dropped+pending {
 				return vh.Fail("metrics:chunk-counters", "stop %d output %d: accepted %v != delivered %v + leftover %v + dropped %v + still pending %v", so.Gen, i, input, consumed, leftover, dropped, pending)
 			}
+			// after the stop nothing waits for an ACK any more: every chunk that was forwarded is acknowledged or was taken
+			// back into the leftovers (which were handed to the buffer at the stop)
+			if pa := m.Sum("slogagent_process_output_queued_chunks", lbl, "type=pendingAck"); pa != 0 {
+				return vh.Fail("metrics:pending-ack-gauge", "stop %d output %d: output_queued_chunks{type=pendingAck} = %v after the agent has stopped (nothing can be waiting for an ACK)", so.Gen, i, pa)
+			}
+			if lo := m.Sum("slogagent_process_output_queued_chunks", lbl, "type=leftover"); lo != 0 {
+				return vh.Fail("metrics:leftover-gauge", "stop %d output %d: output_queued_chunks{type=leftover} = %v after the agent has stopped (the client's leftovers were handed back to the buffer: %v counted there)", so.Gen, i, lo, leftover)
+			}
 			attempts := m.Sum("slogagent_process_output_forward_attempts_total", lbl)
 			forwarded := m.Sum("slogagent_process_output_forwarded_chunks_total", lbl)
 			ackedM := m.Sum("slogagent_process_output_acknowledged_chunks_total", lbl)
@@ -362,7 +370,15 @@ func CheckC17(o *Outcome) *vh.Finding {
 		if r.Variant == "valid" {
 			wantOK, wantFailed = 1, 0
 		}
-		if r.OK != wantOK || r.Failed != wantFailed {
+		if r.Burst > 1 {
+			// several signals for one scheduled reload: signals that arrive while a reload runs are coalesced (at most one
+			// more reload is queued), and a queued reload may read the configuration file before or after the harness has
+			// put the active one back - between 1 and Burst reloads, the first with the expected status
+			n := r.OK + r.Failed
+			if n < 1 || n > float64(r.Burst) || (r.Variant == "valid" && r.Failed > 0) || (r.Variant != "valid" && r.Failed < 1) {
+				return vh.Fail("reload:counter", "generation %d: %d SIGHUPs for a reload with the %s configuration changed slogagent_reloads_total by success=%v failure=%v", r.Gen, r.Burst, r.Variant, r.OK, r.Failed)
+			}
+		} else if r.OK != wantOK || r.Failed != wantFailed {
 			return vh.Fail("reload:counter", "generation %d: a reload with the %s configuration changed slogagent_reloads_total by success=%v failure=%v (expected %v/%v)", r.Gen, r.Variant, r.OK, r.Failed, wantOK, wantFailed)
 		}
 		if len(r.Orphans) > 0 {
